@@ -1,5 +1,6 @@
 import RpmVerif.Model.FromEntries
 import RpmVerif.Gen.DepCtors
+import RpmVerif.Gen.BuilderSetters
 /-!
 # L7: the builder — model of `PackageBuilder::{prepare_data, build}` and `SignatureHeaderBuilder`
 
@@ -84,6 +85,115 @@ structure Cfg where
   compression : Comp
   largeFileThreshold : Nat := 4294967295   -- u32::MAX unless the verification hook overrides it
   deriving Repr
+
+/-! ## `PackageBuilder::new` and the setters of `impl PackageBuilder` (the builder STATE as a function of the calls)
+
+```rust
+pub fn new(name: &str, version: &str, license: &str, arch: &str, summary: &str) -> Self {
+    Self { name: name.to_string(), epoch: 0, version: version.to_string(), license: license.to_string(),
+           arch: arch.to_string(), summary: summary.to_string(), release: "1".to_string(), ..Default::default() } }
+pub fn epoch(mut self, epoch: u32) -> Self { self.epoch = epoch; self }
+pub fn url(mut self, content: impl Into<String>) -> Self { self.url = Some(content.into()); self }
+pub fn provides(mut self, dep: Dependency) -> Self { self.provides.push(dep); self }
+pub fn pre_install_script(mut self, content: impl Into<Scriptlet>) -> Self { self.pre_inst_script = Some(content.into()); self }
+```
+The two literals of `new` and the (name, field, kind) rows of the setters are the generated table `Gen/BuilderSetters.lean`
+(tools/gen/builder_setters.py); `modelledSetterRows` below is what `MetaSetter.apply` implements, and
+`C06.builder_setters_standard` states that the two agree. `compression` starts as `CompressionWithLevel::default()`, which
+depends on the cargo features: a parameter (`AddData.defaultCompression` is its model). -/
+
+/-- `Scriptlet::new(script)` — also `impl<T: Into<String>> From<T> for Scriptlet` (a `&str` / `String` handed to a scriptlet setter) -/
+def Scriptlet.new (script : Bytes) : Scriptlet := ⟨script, Option.none, Option.none⟩
+/-- `Scriptlet::flags(f)` -/
+def Scriptlet.withFlags (s : Scriptlet) (f : Nat) : Scriptlet := { s with flags := some f }
+/-- `Scriptlet::prog(p)` -/
+def Scriptlet.withProg (s : Scriptlet) (p : List Bytes) : Scriptlet := { s with prog := some p }
+
+/-- `PackageBuilder::new(name, version, license, arch, summary)`; `defaultComp` = `CompressionWithLevel::default()` -/
+def Cfg.new (name version license arch summary : Bytes) (defaultComp : Comp) : Cfg :=
+  { name := name, epoch := Gen.builderNewEpoch, version := version, release := Gen.builderNewRelease, license := license,
+    arch := arch, summary := summary, desc := Option.none, vendor := Option.none, packager := Option.none, group := Option.none,
+    url := Option.none, vcs := Option.none, cookie := Option.none, buildHost := Option.none, sourceDate := Option.none,
+    files := [], directories := [], provides := [], requires := [], conflicts := [], obsoletes := [], recommends := [],
+    suggests := [], enhances := [], supplements := [], preIn := Option.none, postIn := Option.none, preUn := Option.none,
+    postUn := Option.none, preTrans := Option.none, postTrans := Option.none, preUntrans := Option.none,
+    postUntrans := Option.none, verify := Option.none, changelog := [], compression := defaultComp }
+
+/-- one call of an infallible setter. `sourceDate` / `changelog` carry the `Timestamp` AFTER the caller's `try_into().unwrap()`
+(`AddData.sourceDate` / `addChangelogEntry` model the conversion and its panic); `script k` is the `k`-th of the nine scriptlet
+setters and `dep k` the `k`-th of the eight dependency setters, both in source order (`scriptSetterNames`, `depSetterNames`) -/
+inductive MetaSetter where
+  | epoch (n : Nat)
+  | release (s : Bytes)
+  | url (s : Bytes)
+  | vcs (s : Bytes)
+  | description (s : Bytes)
+  | vendor (s : Bytes)
+  | packager (s : Bytes)
+  | group (s : Bytes)
+  | buildHost (s : Bytes)
+  | sourceDate (t : Nat)
+  | cookie (s : Bytes)
+  | compression (c : Comp)
+  | changelog (name entry : Bytes) (t : Nat)
+  | script (k : Nat) (s : Scriptlet)
+  | dep (k : Nat) (d : Dep)
+  deriving DecidableEq, Repr
+
+def scriptSetterNames : List String :=
+  ["pre_install_script", "post_install_script", "pre_uninstall_script", "post_uninstall_script", "pre_trans_script",
+   "post_trans_script", "pre_untrans_script", "post_untrans_script", "verify_script"]
+def depSetterNames : List String :=
+  ["provides", "requires", "conflicts", "obsoletes", "recommends", "suggests", "enhances", "supplements"]
+
+/-- the setter's effect on the builder state: plain assignment, `Some(..)` (the LAST call wins), or `push` (calls accumulate in
+call order); an index past the nine / eight setters is no call at all -/
+def MetaSetter.apply (c : Cfg) : MetaSetter → Cfg
+  | .epoch n => { c with epoch := n }
+  | .release s => { c with release := s }
+  | .url s => { c with url := some s }
+  | .vcs s => { c with vcs := some s }
+  | .description s => { c with desc := some s }
+  | .vendor s => { c with vendor := some s }
+  | .packager s => { c with packager := some s }
+  | .group s => { c with group := some s }
+  | .buildHost s => { c with buildHost := some s }
+  | .sourceDate t => { c with sourceDate := some t }
+  | .cookie s => { c with cookie := some s }
+  | .compression k => { c with compression := k }
+  | .changelog n e t => { c with changelog := c.changelog ++ [(n, e, t)] }
+  | .script 0 s => { c with preIn := some s }
+  | .script 1 s => { c with postIn := some s }
+  | .script 2 s => { c with preUn := some s }
+  | .script 3 s => { c with postUn := some s }
+  | .script 4 s => { c with preTrans := some s }
+  | .script 5 s => { c with postTrans := some s }
+  | .script 6 s => { c with preUntrans := some s }
+  | .script 7 s => { c with postUntrans := some s }
+  | .script 8 s => { c with verify := some s }
+  | .script _ _ => c
+  | .dep 0 d => { c with provides := c.provides ++ [d] }
+  | .dep 1 d => { c with requires := c.requires ++ [d] }
+  | .dep 2 d => { c with conflicts := c.conflicts ++ [d] }
+  | .dep 3 d => { c with obsoletes := c.obsoletes ++ [d] }
+  | .dep 4 d => { c with recommends := c.recommends ++ [d] }
+  | .dep 5 d => { c with suggests := c.suggests ++ [d] }
+  | .dep 6 d => { c with enhances := c.enhances ++ [d] }
+  | .dep 7 d => { c with supplements := c.supplements ++ [d] }
+  | .dep _ _ => c
+
+/-- a chain of setter calls, left to right -/
+def Cfg.applyAll (c : Cfg) (ss : List MetaSetter) : Cfg := ss.foldl MetaSetter.apply c
+
+/-- the rows of `Gen.builderSetters` that `MetaSetter.apply` implements (same order, same field, same kind) -/
+def modelledSetterRows : List (String × String × Nat) :=
+  [("epoch", "epoch", 0), ("release", "release", 0), ("url", "url", 1), ("vcs", "vcs", 1), ("description", "desc", 1),
+   ("vendor", "vendor", 1), ("packager", "packager", 1), ("group", "group", 1), ("build_host", "build_host", 1),
+   ("source_date", "source_date", 3), ("cookie", "cookie", 1), ("compression", "compression", 0),
+   ("add_changelog_entry", "changelog_names+changelog_entries+changelog_times", 4)] ++
+  (scriptSetterNames.zip ["pre_inst_script", "post_inst_script", "pre_uninst_script", "post_uninst_script", "pre_trans_script",
+     "post_trans_script", "pre_untrans_script", "post_untrans_script", "verify_script"]).map (fun p => (p.1, p.2, 1)) ++
+  depSetterNames.map (fun n => (n, n, 2))
 
 /-! ### small text helpers -/
 def decDigits : Nat → Nat → List UInt8
